@@ -26,6 +26,15 @@ type scriptRun struct {
 type scriptEnv struct {
 	names []string
 	vals  []object.Object
+	goVal map[string]any // raw Go values, converted by the VM (object.AsObjects)
+}
+
+func (e *scriptEnv) addGo(name string, v any) *scriptEnv {
+	if e.goVal == nil {
+		e.goVal = map[string]any{}
+	}
+	e.goVal[name] = v
+	return e
 }
 
 func (e *scriptEnv) addInt(name string, v int64) *scriptEnv {
@@ -58,6 +67,9 @@ func runScriptWith(src string, env *scriptEnv, onProbe func(r *scriptRun, args [
 	}
 	for i, n := range env.names {
 		globals[n] = env.vals[i]
+	}
+	for n, v := range env.goVal {
+		globals[n] = v
 	}
 	globals["emit"] = object.NewBuiltin("emit", func(ctx context.Context, args ...object.Object) object.Object {
 		r.emitted = append(r.emitted, args...)
